@@ -49,36 +49,41 @@ def r12_1(rep: Report, idx: Index) -> None:
                          'the handler never loads the Period named in the URL', m.node)
                 continue
 
-            def tg(test, truth, _pv=pv):
-                t = norm(test)
-                if not truth and f'{_pv}.parent_pk != current_mps.pk' in t and f'{_pv} is None' in t:
-                    return ['owned']
-                return []
-            early: list[ast.AST] = []
+            # every use of the loaded Period lies on paths that imply it exists and belongs to the
+            # multi-period stream of the URL - whatever the test looks like (early return, helper that
+            # returns None, De Morgan form)
+            from ..pathcond import PathCond, entails as pc_entails, f_and, f_not, show as pc_show
+            from ..flow import Disjunctive
+            pcd = PathCond()
+            goal = f_and(f_not(('atom', f'{pv} is None')), ('atom', f'{pv}.parent_pk == current_mps.pk'))
+            early: list = []
+            uses = [0]
 
-            def on_stmt(st, s, _pv=pv):
+            def on_stmt(st, states, _pv=pv):
                 if isinstance(st, (ast.If, ast.While, ast.For, ast.With, ast.Try)):
-                    return
-                for x in ast.walk(st):
-                    if isinstance(x, ast.Attribute) and norm(x.value) == _pv and 'owned' not in s:
-                        early.append(st)
-            refuses = False
-            for i in ast.walk(m.node):
-                if isinstance(i, ast.If) and f'{pv}.parent_pk != current_mps.pk' in norm(i.test):
-                    last = i.body[-1]
-                    if isinstance(last, ast.Return) and '404' in norm(last):
-                        refuses = True
-            Flow(MustFacts(lambda st: [], test_gen=tg), on_stmt=on_stmt).run(m.node, frozenset())
-            if refuses and not early:
-                rep.ok(rid, construct, 'ownership test')
-            elif not refuses:
+                    roots = [st.test] if isinstance(st, (ast.If, ast.While)) else []
+                else:
+                    roots = [st]
+                for root in roots:
+                    for x in ast.walk(root):
+                        if isinstance(x, ast.Attribute) and isinstance(x.value, ast.Name) and x.attr != 'parent_pk':
+                            for state in states:
+                                if pcd.resolve(state, x.value.id) == _pv:
+                                    uses[0] += 1
+                                    if pc_entails(state[0], goal) is not True:
+                                        early.append((st, state))
+            Flow(Disjunctive(pcd, cap=512), on_stmt=on_stmt).run(m.node, [PathCond.initial()])
+            if uses[0] == 0:
                 rep.fail(rid, construct, 'ownership test',
-                         f'no `{pv} is None or {pv}.parent_pk != current_mps.pk -> 404` refusal: a '
-                         'period of another multi-period stream is served under this name', m.node)
+                         'the handler loads the Period named in the URL but never uses it', m.node)
+            elif not early:
+                rep.ok(rid, construct, 'ownership test', f'{uses[0]} use(s) of the period, all owned')
             else:
                 rep.fail(rid, construct, 'ownership test',
-                         f'`{short(early[0], 60)}` uses the period before its ownership was tested',
-                         early[0])
+                         f'`{short(early[0][0], 60)}` uses the period on a path that does not imply '
+                         f'`{pv} is not None and {pv}.parent_pk == current_mps.pk` (path condition: '
+                         f'{pc_show(early[0][1][0])[:120]}): a period of another multi-period stream is served '
+                         'under this name', early[0][0])
     if n < 2:
         raise AnalysisError(f'only {n} <mps_name>/<int:ppk> handlers found')
 
@@ -103,18 +108,42 @@ def r12_2_3(rep: Report, idx: Index, cg: CallGraph) -> None:
     # the beyond-the-end signal exists and is a ValueError
     mps = need(find_class(tree, 'ServeMpsMedia'), 'ServeMpsMedia')
     cm = need(find_func(mps, 'calculate_media_segment_index'), 'ServeMpsMedia.calculate_media_segment_index')
-    raises = [n for n in ast.walk(cm) if isinstance(n, ast.Raise)]
-    guard_ok = False
-    for n in ast.walk(cm):
-        if isinstance(n, ast.If) and re.search(r'mod_seg > representation\.num_media_segments', norm(n.test)):
-            if any(isinstance(b, ast.Raise) and 'ValueError' in norm(b) for b in n.body):
-                guard_ok = True
     c2 = f'{MR}::ServeMpsMedia.calculate_media_segment_index'
-    if guard_ok:
-        rep.ok('R12.2', c2, 'beyond the end raises ValueError')
+    # zone proof: on every normal return for a $Number$ request the index into the stored file is at
+    # most num_media_segments (whatever form the refusal takes), and a path raises ValueError
+    from ..absint import Zone, ZoneDomain, proves_le
+    from ..flow import Disjunctive, each_exit
+    params = [a_.arg for a_ in cm.args.args]
+    num_param = next((p_ for p_ in params if 'num' in p_), None)
+    rep_param = next((p_ for p_ in params if p_.startswith('rep')), 'representation')
+    zd = ZoneDomain(attr_roots=('self', rep_param))
+    verdicts: list[tuple[bool, ast.AST, str]] = []
+
+    def on_exit(kind, st, z):
+        if kind != 'return' or st.value is None:
+            return
+        v = st.value
+        elts = v.elts if isinstance(v, ast.Tuple) else (v.args if isinstance(v, ast.Call) else [])
+        if len(elts) != 3 or num_param is None:
+            return
+        if f'none:{num_param}' in z.facts:
+            return                       # $Time$ request: the lookup itself stays inside the file
+        ok_ = proves_le(zd, z, elts[0], ast.parse(f'{rep_param}.num_media_segments', mode='eval').body)
+        verdicts.append((ok_, st, z.describe([norm(elts[0]), f'{rep_param}.num_media_segments'])))
+    z0 = Zone()
+    Flow(Disjunctive(zd, cap=256), on_exit=each_exit(on_exit)).run(cm, [z0])
+    raises_ve = any(isinstance(n, ast.Raise) and n.exc is not None and 'ValueError' in norm(n.exc) for n in ast.walk(cm))
+    if not verdicts:
+        raise AnalysisError('ServeMpsMedia.calculate_media_segment_index: no return for a $Number$ request')
+    badv = [v_ for v_ in verdicts if not v_[0]]
+    if not badv and raises_ve:
+        rep.ok('R12.2', c2, 'beyond the end raises ValueError',
+               f'{len(verdicts)} return path(s) imply index <= num_media_segments')
     else:
         rep.fail('R12.2', c2, 'beyond the end raises ValueError',
-                 'a segment number past the stored media is not refused with ValueError', cm)
+                 'a segment number past the stored media is not refused with ValueError'
+                 + (f' (a $Number$ return does not imply index <= num_media_segments; known: {badv[0][2][:120]})'
+                    if badv else ' (no ValueError is raised)'), badv[0][1] if badv else cm)
     # R12.3: nullability of the third component
     asserts_sn = any(isinstance(n, ast.Assert) and re.fullmatch(r'\w+ is not None', norm(n.test))
                      and norm(n.test).split()[0] in norm(calls[0]._parent.targets[0]) for n in ast.walk(gen)
@@ -161,26 +190,80 @@ def r12_4(rep: Report) -> None:
         if not loops:
             raise AnalysisError(f'{fname}: no loop')
         loop = loops[0]
-        order = []
-        for st in loop.body:
-            t = norm(st)
-            if re.fullmatch(r'period\.start = start', t):
-                order.append('set-start')
-            if 'self.periods.append(period)' in t:
-                order.append('append')
-            if re.fullmatch(r'start \+= period\.duration', t):
-                order.append('advance')
-        if 'set-start' in order and 'advance' in order and order.index('set-start') < order.index('advance') \
-                and order.count('advance') == 1:
-            rep.ok(rid, c, 'start is the running sum of durations', ' -> '.join(order))
-        else:
+        # linear evaluation of one iteration: the Period takes the running start S0 and the running start
+        # ends the iteration as S0 + that Period's duration (on every path through the body)
+        setters = [n for n in ast.walk(loop) if isinstance(n, ast.Assign) and isinstance(n.targets[0], ast.Attribute)
+                   and n.targets[0].attr == 'start' and isinstance(n.value, ast.Name)]
+        if not setters:
             rep.fail(rid, c, 'start is the running sum of durations',
-                     f'loop body order is {order}: each Period must take the running start and the '
-                     'start must then advance by exactly that Period duration', loop)
+                     'no Period in the loop is given the running start (`<period>.start = <running start>`)', loop)
+            continue
+        S = setters[0].value.id
+        pvar = norm(setters[0].targets[0].value)
+        aliases = {pvar}
+        for n in ast.walk(loop):
+            if isinstance(n, ast.Assign) and isinstance(n.value, ast.Name) and n.value.id in aliases \
+                    and isinstance(n.targets[0], ast.Name):
+                aliases.add(n.targets[0].id)
+        problems: list[str] = []
+
+        def lin(e, env):
+            if isinstance(e, ast.Name):
+                return dict(env[e.id]) if e.id in env and env[e.id] is not None else ({e.id: 1} if e.id not in env else None)
+            if isinstance(e, ast.Attribute) and e.attr == 'duration' and norm(e.value) in aliases:
+                return {'D': 1}
+            if isinstance(e, ast.BinOp) and isinstance(e.op, (ast.Add, ast.Sub)):
+                l_, r_ = lin(e.left, env), lin(e.right, env)
+                if l_ is None or r_ is None:
+                    return None
+                sg = 1 if isinstance(e.op, ast.Add) else -1
+                out = dict(l_)
+                for k_, v_ in r_.items():
+                    out[k_] = out.get(k_, 0) + sg * v_
+                return {k_: v_ for k_, v_ in out.items() if v_}
+            return None
+
+        def run(stmts, env) -> list[dict]:
+            envs = [env]
+            for st in stmts:
+                nxt = []
+                for e_ in envs:
+                    if isinstance(st, ast.If):
+                        nxt += run(st.body, dict(e_)) + run(st.orelse, dict(e_))
+                        continue
+                    if isinstance(st, (ast.With, ast.Try)):
+                        nxt += run(st.body, dict(e_))
+                        continue
+                    e_ = dict(e_)
+                    if st is setters[0] and e_.get(S) != {'S0': 1}:
+                        problems.append(f'`{norm(st)}` assigns the running start after it was advanced ({e_.get(S)})')
+                    tgt = val = None
+                    if isinstance(st, ast.Assign) and len(st.targets) == 1 and isinstance(st.targets[0], ast.Name):
+                        tgt, val = st.targets[0].id, st.value
+                    elif isinstance(st, ast.AnnAssign) and isinstance(st.target, ast.Name) and st.value is not None:
+                        tgt, val = st.target.id, st.value
+                    elif isinstance(st, ast.AugAssign) and isinstance(st.target, ast.Name):
+                        tgt = st.target.id
+                        val = ast.BinOp(left=ast.Name(id=tgt, ctx=ast.Load()), op=st.op, right=st.value)
+                    if tgt is not None:
+                        e_[tgt] = lin(val, e_)
+                    nxt.append(e_)
+                envs = nxt
+            return envs
+        finals = run(loop.body, {S: {'S0': 1}})
+        if not problems and finals and all(f_.get(S) == {'S0': 1, 'D': 1} for f_ in finals):
+            rep.ok(rid, c, 'start is the running sum of durations', f'{S}: S0 -> S0 + {pvar}.duration')
+        else:
+            got = sorted({str(f_.get(S)) for f_ in finals})
+            rep.fail(rid, c, 'start is the running sum of durations',
+                     (problems[0] if problems else
+                      f'after one iteration the running start `{S}` is {got}, not S0 + {pvar}.duration') +
+                     ': each Period must take the running start and the start must then advance by exactly '
+                     'that Period duration', loop)
         init = [n for n in fn.body if isinstance(n, (ast.Assign, ast.AnnAssign))
-                and norm(n.targets[0] if isinstance(n, ast.Assign) else n.target) == 'start']
+                and norm(n.targets[0] if isinstance(n, ast.Assign) else n.target) == S]
         if fname == 'create_all_vod_periods':
-            if init and 'timedelta(0)' in norm(init[0].value):
+            if init and re.search(r'timedelta\((0|seconds=0)?\)', norm(init[0].value)):
                 rep.ok(rid, c, 'first period starts at 0')
             else:
                 rep.fail(rid, c, 'first period starts at 0', 'running start is not initialised to 0', fn)
